@@ -97,5 +97,17 @@ def delegation_cases(draw, force_kind=None, sign_for_asked=False):
     for r in dels.values():
         del r["_idx"]
     T = GM.wrap(GM.signed_part(ttype, dels, version=draw(st.integers(1, 9))))
+    # one case in six: the trusted metadata carries a near-miss of a field's grammar (another time spelling - offsets instead of
+    # Z, a blank instead of T, no seconds, date only -, or a version / timestamp that is present but falsy): whether it still
+    # counts as well-formed is the reference schema's call (gray spellings are not asserted)
+    tflaw = draw(st.sampled_from(["none"] * 5 + ["time", "falsy"] if not sign_for_asked else ["none"]))
+    if tflaw == "time":
+        from . import gen_mutate as MU
+        f = draw(st.sampled_from(["expiration", "timestamp"]))
+        new = MU._edit(T["signed"][f], "time:" + draw(st.sampled_from(MU.TIME_EDITS)))
+        if new is not None:
+            T["signed"][f] = new
+    elif tflaw == "falsy":
+        T["signed"][draw(st.sampled_from(["version", "timestamp", "version"]))] = draw(st.sampled_from([0, None, False, "", 0.0, [], {}]))
     return {"role": asked, "U": U, "T": T, "gpg": gpg, "aim": aim, "ask_kind": ask_kind, "kind": kind,
             "plan": plan, "layout": layout}
